@@ -23,7 +23,12 @@ for fun in nograd_functions:
 defjvp(func(ArrayBox.__getitem__), "same")
 defjvp(untake, "same")
 
-defjvp_argnum(anp.array_from_args, lambda argnum, g, ans, args, kwargs: untake(g, argnum - 2, vspace(ans)))
+defjvp_argnum(
+    anp.array_from_args,
+    lambda argnum, g, ans, args, kwargs: untake(
+        g, (0,) * (anp.ndim(ans) - anp.ndim(g) - 1) + (argnum - 2,), vspace(ans)
+    ),
+)
 defjvp(
     anp._array_from_scalar_or_array,
     None,
